@@ -337,6 +337,39 @@ fn evaluate(c: &Case) -> Eval {
     Eval { symptom: None, had_error }
 }
 
+/// What survives of the item is also observed behaviourally through real rustc (channel X):
+/// repr through size / alignment / discriminant casts, cfg_attr-gated std derives through
+/// `impls!`, visibility from a sibling module, generics defaults, helper-named attributes of
+/// traits that are not derived (kept => a user attribute macro of that name still sees them).
+fn survivors() -> Vec<crate::xrun::XCase> {
+    let progs: [(&str, &str, &str, &str); 12] = [
+        ("repr(u8) + discriminants", "pub mod m { use derive_ex::derive_ex; #[derive_ex(Clone, Debug)] #[repr(u8)] pub enum X { A = 3, B = 7, C } }", "format!(\"{};{};{};{}\", m::X::A as u8, m::X::B as u8, m::X::C as u8, ::core::mem::size_of::<m::X>())", "3;7;8;1"),
+        ("repr(align) after derive_ex", "pub mod m { use derive_ex::derive_ex; #[derive_ex(Clone, Default)] #[repr(align(16))] pub struct X(pub u8); }", "format!(\"{};{}\", ::core::mem::size_of::<m::X>(), ::core::mem::align_of::<m::X>())", "16;16"),
+        ("repr(C) before derive_ex helper attrs", "pub mod m { use derive_ex::derive_ex; #[repr(C)] #[derive_ex(PartialEq, Debug)] pub struct X { #[partial_eq(ignore)] pub a: u8, pub b: u32, pub c: u8 } }", "format!(\"{};{}\", ::core::mem::size_of::<m::X>(), m::X { a: 1, b: 2, c: 3 } == m::X { a: 9, b: 2, c: 3 })", "12;true"),
+        ("cfg_attr-gated std derive kept", "pub mod m { use derive_ex::derive_ex; #[derive_ex(Clone)] #[cfg_attr(all(), derive(PartialEq, Debug))] pub struct X(pub u8); }", "format!(\"{};{}\", dxrt::impls!(m::X: ::core::cmp::PartialEq), dxrt::impls!(m::X: ::core::fmt::Debug))", "true;true"),
+        ("cfg_attr(any()) keeps nothing", "pub mod m { use derive_ex::derive_ex; #[derive_ex(Clone)] #[cfg_attr(any(), derive(PartialEq))] pub struct X(pub u8); }", "format!(\"{};{}\", dxrt::impls!(m::X: ::core::cmp::PartialEq), dxrt::impls!(m::X: ::core::clone::Clone))", "false;true"),
+        ("std derive above and below", "pub mod m { use derive_ex::derive_ex; #[derive(Debug)] #[derive_ex(Clone)] #[derive(PartialEq)] pub enum X { A(u8), B } }", "format!(\"{};{};{}\", dxrt::impls!(m::X: ::core::fmt::Debug), dxrt::impls!(m::X: ::core::cmp::PartialEq), dxrt::impls!(m::X: ::core::clone::Clone))", "true;true;true"),
+        ("field visibility kept", "pub mod m { use derive_ex::derive_ex; #[derive_ex(Default, Debug)] pub struct X { pub a: u8, pub(crate) b: u16, #[debug(ignore)] pub(super) c: u32 } }", "{ let x = <m::X as ::core::default::Default>::default(); format!(\"{};{};{}\", x.a, x.b, x.c) }", "0;0;0"),
+        ("generic defaults kept", "pub mod m { use derive_ex::derive_ex; #[derive_ex(Clone, Default)] pub struct X<T = u8, const N: usize = 3>(pub [T; N]); }", "{ let x: m::X = ::core::default::Default::default(); format!(\"{}\", x.0.len()) }", "3"),
+        ("where-clause kept", "pub mod m { use derive_ex::derive_ex; pub trait Tr {} impl Tr for u8 {} #[derive_ex(Clone)] pub struct X<T>(pub T) where T: Tr; }", "format!(\"{}\", dxrt::impls!(m::X<u8>: ::core::clone::Clone))", "true"),
+        ("variant attributes of a foreign derive kept", "pub mod m { use derive_ex::derive_ex; #[derive_ex(Clone, Debug)] #[derive(Default)] pub enum X { A(u8), #[default] B } }", "format!(\"{:?}\", <m::X as ::core::default::Default>::default())", "B"),
+        ("non_exhaustive kept", "pub mod m { use derive_ex::derive_ex; #[derive_ex(Clone, PartialEq)] #[non_exhaustive] pub enum X { A, B } }", "format!(\"{}\", match m::X::A { m::X::A => 1, m::X::B => 2 })", "1"),
+        ("allow kept (no warning turns into error)", "pub mod m { #![deny(non_camel_case_types)] use derive_ex::derive_ex; #[derive_ex(Clone, Debug)] #[allow(non_camel_case_types)] pub struct lower_case(pub u8); }", "format!(\"{:?}\", m::lower_case(1))", "lower_case(1)"),
+    ];
+    progs.iter().map(|(what, defs, expr, expected)| crate::xrun::XCase {
+        text: defs.to_string(),
+        code: format!("{defs}\npub fn run() -> String {{ {expr} }}\n"),
+        expected: expected.to_string(),
+        atoms: [format!("survivor={what}")].into_iter().collect(),
+        nontrivial: true,
+        detail: json!({"kind": "survivor", "what": what, "program": defs}),
+        what: format!("behavioural survivor `{what}`"),
+        inner: 1,
+        symptom: "foreign-content-lost-or-altered".into(),
+        must_compile: true,
+    }).collect()
+}
+
 pub fn run(ctx: &Ctx, rep: &mut Report) {
     let thorough = ctx.tier.is_thorough();
     rep.rule = "terminal state = (item kind, derived list, visibility, generics/where-clause, discriminant, and a sequence of up to 3 attributes from a pool of 9 foreign + 10 helper-named + derive_ex attributes at each of the type / variant / field placements, bounded by the total number of deviations) plus a fixed family of failing inputs (bad arguments, malformed helper attributes, unsupported item kinds, impl items); distinct by input text; non-trivial = at least one attribute placed".into();
@@ -381,5 +414,12 @@ pub fn run(ctx: &Ctx, rep: &mut Report) {
         } else if rep.samples.len() < 5 && c.input != c.expected && c.input.matches("#[").count() >= 3 {
             rep.sample(json!({"attr": c.attr, "input": c.input, "expected_item": c.expected}));
         }
+    }
+    if ctx.replay.is_none() {
+        let sv = survivors();
+        rep.stats.states += sv.len() as u64;
+        rep.stats.transitions += sv.len() as u64;
+        rep.stats.terminals += sv.len() as u64;
+        crate::xrun::run_and_compare(rep, "c14s", &sv);
     }
 }
